@@ -66,6 +66,11 @@ def cut_closure(fn, roots, cut_tails):
                 continue
             if isinstance(x, (ast.FunctionDef, ast.AsyncFunctionDef, ast.ClassDef)):
                 continue
+            if isinstance(x, ast.IfExp):
+                # the condition of 'a if c else b' selects, it does not feed (same as an if statement,
+                # whose test def_exprs does not record either)
+                stack.extend([x.body, x.orelse])
+                continue
             stack.extend(ast.iter_child_nodes(x))
 
     def use(name):
@@ -82,6 +87,30 @@ def cut_closure(fn, roots, cut_tails):
     for r in roots:
         scan(r)
     return seen, calls, cuts
+
+
+def ifexp_guarded(fnorm, n, call, fact_ok):
+    """True when `call` sits, inside CFG node n, in a branch of a conditional
+    expression whose condition - taken with the polarity of that branch -
+    satisfies fact_ok (the CFG does not split 'a if c else b')."""
+    def walk(x, guarded):
+        if x is call:
+            return guarded
+        if isinstance(x, (ast.FunctionDef, ast.AsyncFunctionDef, ast.ClassDef, ast.Lambda)):
+            return None
+        if isinstance(x, ast.IfExp):
+            for (sub, pol) in ((x.body, True), (x.orelse, False)):
+                g = guarded or bool(fact_ok(fnorm.at(n).cmp(x.test, pol)))
+                res = walk(sub, g)
+                if res is not None:
+                    return res
+            return walk(x.test, guarded)
+        for c in ast.iter_child_nodes(x):
+            res = walk(c, guarded)
+            if res is not None:
+                return res
+        return None
+    return bool(walk(n.ast, False))
 
 
 def node_of(cfg, call):
@@ -205,12 +234,17 @@ def run(ctx: Context):
         if not cfg.find(tg):
             raise AnchorVanished("no call of _decrypt_rwcapdata in _unpack_contents")
 
-        def writeable(n, lab):
-            f = fnorm.edge_fact(n, lab)
+        def writeable_fact(f):
             return bool(f) and f[0] == "false" and READONLY_CALL.match(f[1]) is not None
+
+        def writeable(n, lab):
+            return writeable_fact(fnorm.edge_fact(n, lab))
+
+        def unguarded_decrypt(n):
+            return any(not ifexp_guarded(fnorm, n, c, writeable_fact) for c in calls_at(n, "_decrypt_rwcapdata"))
         for n in cfg.find(tg):
             r.site(fn, n.ast, "decrypt site")
-        for (n, w) in find_path_avoiding(cfg, tg, gate_edge=writeable):
+        for (n, w) in find_path_avoiding(cfg, unguarded_decrypt, gate_edge=writeable):
             r.violation(fn, fn.loc(n.ast), "child write cap is decrypted on a path that never established "
                         "'not self.is_readonly()' (path: %s)" % w.brief(), w)
         r.count(len(cfg.nodes))
@@ -287,10 +321,16 @@ def run(ctx: Context):
             r.require(ok, fn, fn.loc(c), "the value encrypted into the rw slot (%s) is not the child's "
                       "get_write_uri()" % src(fn, a1))
 
+        def key_fact(f):
+            # 'writekey is not None', or the truth of writekey (which implies it)
+            return bool(f) and ((f[0] == "is not" and {f[1], f[2]} == {"None", wk}) or (f[0] == "truth" and f[1] == wk))
+
         def has_key(n, lab):
-            f = fnorm.edge_fact(n, lab)
-            return bool(f) and f[0] == "is not" and {f[1], f[2]} == {"None", wk}
-        for (n, w) in find_path_avoiding(cfg, has_call("_encrypt_rw_uri"), gate_edge=has_key, kill=stores(wk)):
+            return key_fact(fnorm.edge_fact(n, lab))
+
+        def unguarded_encrypt(n):
+            return any(not ifexp_guarded(fnorm, n, c, key_fact) for c in calls_at(n, "_encrypt_rw_uri"))
+        for (n, w) in find_path_avoiding(cfg, unguarded_encrypt, gate_edge=has_key, kill=stores(wk)):
             r.violation(fn, fn.loc(n.ast), "_encrypt_rw_uri is reached without 'writekey is not None'", w)
         r.count(len(cfg.nodes))
         # callers hand the backing file's writekey (or None) to the packer
@@ -567,6 +607,16 @@ def run(ctx: Context):
         for (n, w) in find_path_avoiding(cfg, nonnull, gate_edge=cap_writeable):
             r.violation(fn, fn.loc(n.ast), "a writekey is stored for a cap that was not shown to be writeable "
                         "(path: %s)" % w.brief(), w)
+        # ... and what is stored is the cap's own writekey field: any other field of the cap (readkey,
+        # storage index, fingerprint) is known to read-cap holders, and the directory superencrypts with it
+        capp = first_positional_params(fn)[:1]
+        wk_re = re.compile(r"^(self\._uri|%s)\.writekey$" % "|".join(re.escape(p) for p in capp + ["filecap"]))
+        for n in nn:
+            v = n.ast.value if isinstance(n.ast, (ast.Assign, ast.AnnAssign)) else None
+            s = fnorm.norm(n, v) if v is not None else "?"
+            r.require(wk_re.match(s) is not None, fn, fn.loc(n.ast),
+                      "init_from_cap stores %s as the node's writekey, not the writekey field of its cap: the "
+                      "directory superencryption key would be derived from a value read-cap holders know" % s)
         # every normal exit has passed a store (a node has no _writekey attribute before), unless the
         # constructor already binds it to None
         ctor = idx.cls(MF).methods.get("__init__")
@@ -647,3 +697,91 @@ def run(ctx: Context):
         snames, _sc, scuts = cut_closure(sh, srets, {"tagged_hash", "tagged_pair_hash", "digest"})
         r.require(sp[0] not in snames and bool(scuts), sh, sh.loc(),
                   "the reader-visible salt exposes its argument %s outside a tagged hash" % sp[0])
+
+    # -- 8. every packer call is keyed by a writekey (or by nothing) -------------
+    with ctx.rule("C18.8", "R7", "every call of _pack_normalized_children, and of each function that passes its own "
+                  "writekey parameter through to it, hands None, <node>.get_writekey() or such a pass-through "
+                  "parameter as the superencryption key; the packers are never taken as values",
+                  expected=4) as r:
+        cg = get_callgraph(idx)
+        root = idx.func("dirnode:_pack_normalized_children")
+        if "writekey" not in root.params:
+            raise AnchorVanished("_pack_normalized_children has no writekey parameter")
+        work = [(root, "writekey")]
+        packers = set()
+
+        def key_ok(f, e, visiting):
+            """None when `e` is an admissible key inside f, else the offending sub-expression"""
+            if isinstance(e, ast.Constant):
+                return None if e.value is None else e
+            if isinstance(e, ast.IfExp):
+                return key_ok(f, e.body, visiting) or key_ok(f, e.orelse, visiting)
+            if isinstance(e, ast.BoolOp):
+                for x in e.values:
+                    b = key_ok(f, x, visiting)
+                    if b is not None:
+                        return b
+                return None
+            if isinstance(e, ast.Call):
+                if call_tail(e) == "get_writekey" and not e.args and not e.keywords \
+                        and isinstance(e.func, ast.Attribute) and attr_path(e.func.value):
+                    return None
+                return e
+            if isinstance(e, ast.Name):
+                if (f.qual, e.id) in visiting:
+                    return None
+                visiting = visiting | {(f.qual, e.id)}
+                ds = def_exprs(f).get(e.id, [])
+                if e.id in f.params:
+                    work.append((f, e.id))          # pass-through: the callers of f are obliged in turn
+                elif not ds:
+                    return e
+                for dx in ds:
+                    b = key_ok(f, dx, visiting)
+                    if b is not None:
+                        return b
+                return None
+            return e
+        while work:
+            g, pname = work.pop()
+            if (g.qual, pname) in packers:
+                continue
+            packers.add((g.qual, pname))
+            if isinstance(g.node, ast.Lambda):
+                raise AnalysisError("writekey pass-through by a lambda parameter")
+            a = g.node.args
+            if a.vararg or a.kwarg:
+                raise AnalysisError("packer %s takes */** arguments" % short(g))
+            pos_names = [x.arg for x in list(a.posonlyargs) + list(a.args)]
+            if g.cls is not None and pos_names[:1] in (["self"], ["cls"]):
+                pos_names = pos_names[1:]
+            pos = pos_names.index(pname) if pname in pos_names else 10 ** 6
+            same_name = idx.by_name.get(g.name, [])
+            for cs in cg.calls_named(g.name):
+                if len(same_name) > 1:
+                    tg = cg.resolve(cs.fn, cs.call)
+                    if tg and all(t.qual != g.qual for t in tg):
+                        continue
+                r.site(cs.fn, cs.call, "%s keyed" % g.name)
+                if any(isinstance(x, ast.Starred) for x in cs.call.args) or any(k.arg is None for k in cs.call.keywords):
+                    r.violation(cs.fn, cs.fn.loc(cs.call), "%s is called with */** arguments: its key cannot be "
+                                "determined" % g.name)
+                    continue
+                k = arg(cs.call, pos, pname)
+                if k is None:
+                    dflt = dict(zip(reversed(pos_names), reversed(a.defaults)))
+                    dflt.update({x.arg: d for (x, d) in zip(a.kwonlyargs, a.kw_defaults) if d is not None})
+                    k = dflt.get(pname)
+                if k is None:
+                    r.violation(cs.fn, cs.fn.loc(cs.call), "%s is called without a %s argument" % (g.name, pname))
+                    continue
+                bad = key_ok(cs.fn, k, frozenset())
+                r.require(bad is None, cs.fn, cs.fn.loc(cs.call),
+                          "%s packs directory contents under the key %s (%s): child write caps may only be "
+                          "superencrypted under None, a node's get_writekey() or a passed-through writekey; anything "
+                          "else is derivable by read-cap holders or by anyone" % (
+                              short(cs.fn), src(cs.fn, k), src(cs.fn, bad) if bad is not None else ""))
+            for (f, nd) in cg.refs_named(g.name):
+                r.violation(f, f.loc(nd), "%s takes the packer %s as a value: its key argument is out of sight"
+                            % (short(f), g.name))
+        r.count(len(packers))
